@@ -172,23 +172,27 @@ Register(S, via, n, o, m, x) ==
                         <<Ntf("Transfer", n, old, o, 1, 0)>>)
   ELSE Fault("register", S, via, n, o, m, x, Nil, Nil)
 
-\* Transfer(to, tokenID, data): no parent check, only the name's own expiration
-Transfer(S, via, n, o) ==
+\* Transfer(to, tokenID, data): no parent check, only the name's own expiration.  `data` is only handed on to
+\* onNEP11Payment.  enc = "buf" when the receiver hash arrives as a Buffer stack item: util.Equals(from, to)
+\* compares a Buffer by reference, so a self-transfer then takes the path of a transfer to somebody else
+\* (admin cleared, balance and index rewritten with the same values).
+Encs == {Nil, "buf"}
+Transfer(S, via, n, o, enc) ==
   LET W == Wit(S, via) IN
   IF Level(n) > 1 /\ AliveIn(ns, now, n)
   THEN LET from == ns[n].owner IN
        IF from \notin W
        THEN /\ now' = now + 1 /\ UNCHANGED <<roots, ns, supply, bal, idx, rec, soa>>
-            /\ Halt("transfer", S, via, n, o, Nil, 0, Nil, Nil, "false", 0, NoNtf)
-       ELSE /\ IF from # o
+            /\ Halt("transfer", S, via, n, o, Nil, 0, Nil, enc, "false", 0, NoNtf)
+       ELSE /\ IF from # o \/ enc = "buf"
                THEN /\ ns' = [ns EXCEPT ![n].owner = o, ![n].admin = Nil]
                     /\ bal' = Inc(Dec(bal, from), o)
                     /\ idx' = (idx \ {<<from, n>>}) \cup {<<o, n>>}
                ELSE UNCHANGED <<ns, bal, idx>>
             /\ now' = now + 1 /\ UNCHANGED <<roots, supply, rec, soa>>
-            /\ Halt("transfer", S, via, n, o, Nil, 0, Nil, Nil, "true", 0,
+            /\ Halt("transfer", S, via, n, o, Nil, 0, Nil, enc, "true", 0,
                     <<Ntf("Transfer", n, from, o, 1, 0)>>)
-  ELSE Fault("transfer", S, via, n, o, Nil, 0, Nil, Nil)
+  ELSE Fault("transfer", S, via, n, o, Nil, 0, Nil, enc)
 
 \* Renew(name, years)
 Renew(S, via, n, y) ==
@@ -234,6 +238,11 @@ RecordOK(n, ty, W) ==
   /\ AdminOK(ns[tok], W)
 
 Touch(tok) == [soa EXCEPT ![tok].serial = now]       \* updateSoaSerial
+\* updateSoaSerial splits the stored SOA data at spaces and panics unless there are exactly 7 parts: with an
+\* e-mail that is empty or contains a space every record mutation under the name FAULTs (until updateSOA
+\* stores another e-mail).  BadMails = the e-mails of that kind used by the driver.
+BadMails  == {"", "a b"}
+SoaOK(tok) == soa[tok].mail \notin BadMails
 
 \* AddRecord(name, typ, data)
 AddRecord(S, via, n, ty, d) ==
@@ -242,7 +251,7 @@ AddRecord(S, via, n, ty, d) ==
   IN
   IF RecordOK(n, ty, W)
   THEN LET L == rec[<<tok, n, ty>>] IN
-       IF d \notin Range(L) /\ Len(L) < MaxRec /\ (ty = "CNAME" => Len(L) = 0)
+       IF d \notin Range(L) /\ Len(L) < MaxRec /\ (ty = "CNAME" => Len(L) = 0) /\ SoaOK(tok)
        THEN /\ rec' = [rec EXCEPT ![<<tok, n, ty>>] = Append(L, d)]
             /\ soa' = Touch(tok)
             /\ now' = now + 1 /\ UNCHANGED <<roots, ns, supply, bal, idx>>
@@ -258,7 +267,7 @@ SetRecordD(D, S, via, n, ty, id, d) ==
   IN
   IF RecordOK(n, ty, W)
   THEN LET L == rec[<<tok, n, ty>>] IN
-       IF id >= 0 /\ id < Len(L) /\ ("SetDuplicate" \in D \/ \A i \in 1..Len(L) : i # id + 1 => L[i] # d)
+       IF id >= 0 /\ id < Len(L) /\ ("SetDuplicate" \in D \/ \A i \in 1..Len(L) : i # id + 1 => L[i] # d) /\ SoaOK(tok)
        THEN /\ rec' = [rec EXCEPT ![<<tok, n, ty>>] = [L EXCEPT ![id + 1] = d]]
             /\ soa' = Touch(tok)
             /\ now' = now + 1 /\ UNCHANGED <<roots, ns, supply, bal, idx>>
@@ -277,6 +286,7 @@ DeleteRecords(S, via, n, ty) ==
      /\ Level(tok) > 1
      /\ StateOK(tok, tok)
      /\ AdminOK(ns[tok], W)
+     /\ SoaOK(tok)
   THEN /\ rec' = IF ty \in OkTypes THEN [rec EXCEPT ![<<tok, n, ty>>] = <<>>] ELSE rec
        /\ soa' = Touch(tok)
        /\ now' = now + 1 /\ UNCHANGED <<roots, ns, supply, bal, idx>>
@@ -302,7 +312,7 @@ NextOf(P(_), PS(_)) ==
   \/ \E d \in P(Ticks) : Tick(d)
   \/ \E S \in PS(SignerSets), v \in P(Vias), n \in P(Names \ NT), m \in P(Mails), x \in P(Expires) : RegisterTLD(S, v, n, m, x)
   \/ \E S \in PS(SignerSets), v \in P(Vias), n \in P(Names), o \in P(Owners), m \in P(Mails), x \in P(Expires) : Register(S, v, n, o, m, x)
-  \/ \E S \in PS(SignerSets), v \in P(Vias), n \in P(NT), o \in P(Owners) : Transfer(S, v, n, o)
+  \/ \E S \in PS(SignerSets), v \in P(Vias), n \in P(NT), o \in P(Owners), c \in P(Encs) : Transfer(S, v, n, o, c)
   \/ \E S \in PS(SignerSets), v \in P(Vias), n \in P(Names), y \in P(Years) : Renew(S, v, n, y)
   \/ \E S \in PS(SignerSets), v \in P(Vias), n \in P(NT), o \in P(Owners \cup {Nil}) : SetAdmin(S, v, n, o)
   \/ \E S \in PS(SignerSets), v \in P(Vias), n \in P(Names), m \in P(Mails), x \in P(Expires) : UpdateSOA(S, v, n, m, x)
@@ -406,7 +416,9 @@ GNext(G, e, t) ==
               [G EXCEPT !.reg[e.n] = [ex |-> TRUE, owner |-> Nil, admin |-> Nil, exp |-> t + e.x]]
          [] e.act = "register" /\ e.ret = "true" ->
               [G EXCEPT !.reg[e.n] = [ex |-> TRUE, owner |-> e.o, admin |-> Nil, exp |-> t + e.x]]
-         [] e.act = "transfer" /\ e.ret = "true" /\ G.reg[e.n].owner # e.o ->
+         [] e.act = "transfer" /\ e.ret = "true" /\ (G.reg[e.n].owner # e.o \/ e.d = "buf") ->
+              \* (a self-transfer whose receiver arrives as a Buffer is handled as a transfer to somebody else:
+              \*  the statement's "transfer clears the admin" holds literally, see Transfer)
               [G EXCEPT !.reg[e.n].owner = e.o, !.reg[e.n].admin = Nil]
          [] e.act = "renew" ->
               [G EXCEPT !.reg[e.n].exp = @ + e.x * YEAR]
